@@ -139,7 +139,9 @@ def reference_visit(root: Node, script: Scripted):
             else:
                 r = walk(child, attr, node, path + [attr], below)
                 if r is not _NOEDIT:
-                    changes[attr] = r
+                    # "remove: delete this node" -- a deleted single child leaves the attribute
+                    # empty (None), exactly as a deleted list element leaves the list shorter
+                    changes[attr] = None if r is REMOVE else r
         if changes:
             values = {k: getattr(node, k) for k in node.keys}
             values.update(changes)
